@@ -193,10 +193,15 @@ def mutants(spec):
                                 ci2 = [k for k, (pp, _) in enumerate(inst2["conns"]) if pp == pn2]
                                 if not ci2 or (iname2, pn2) in referenced:
                                     continue
-                                s = clone(); setconn(s, ["nc", "zzn", None])
                                 i2i = [k for k, x in enumerate(m["insts"]) if x["name"] == iname2][0]
-                                s["modules"][mi]["insts"][i2i]["conns"][ci2[-1]][1] = ["pref", inst["name"], pname]
-                                yield "noconn_referenced", "%s/scalar" % depth, s
+                                ref = ["pref", inst["name"], pname]
+                                forms = [("direct", ref), ("via_slice", ["slice", ref, [0, w, None]]), ("via_concat", ["cat", [ref]])]
+                                if w >= 2:
+                                    forms.append(("via_concat_of_slices", ["cat", [["slice", ref, [0, 1, None]], ["slice", ref, [1, w, None]]]]))
+                                for fname, fexpr in forms:
+                                    s = clone(); setconn(s, ["nc", "zzn", None])
+                                    s["modules"][mi]["insts"][i2i]["conns"][ci2[-1]][1] = fexpr
+                                    yield "noconn_referenced", "%s/%s" % (depth, fname), s
                                 break
                 if p[0] == "bun" and e[0] != "nc":
                     leaves = model.bundle_leaves(spec, p[2])
